@@ -114,6 +114,30 @@ class Gen:
         return {"name": name, "layout": lay, "variant": self.variant, "gates": self.gates, "steps": steps}
 
 
+def lock_word_race():
+    """directed: two membership operations read the lock word of the same node before either of them writes it.  A joiner's request is
+    parked inside RequestToJoin at its future successor S right after nodeState.Transition has loaded the word; the predecessor of S
+    (the member with the largest id, so it asks for S's lock before its own) then takes the first lock of its leave; the joiner resumes:
+    its compare-and-swap must fail and the join be retried after the leave."""
+    lay = [{"n": "n0"}, {"n": "n1"}, {"k": "k0"}, {"n": "n2"}, {"k": "k1"}, {"n": "n3"}]
+    steps = [{"do": "create", "n": "n0"}]
+    for m in ("n1", "n2"):
+        steps += [{"do": "start", "op": "init" + m, "kind": "join", "n": m, "via": "n0"}, {"do": "steps", "op": "init" + m}, {"do": "settle"}]
+    steps += [{"do": "settle", "rounds": 12},
+              {"do": "start", "op": "w1", "kind": "put", "at": "n0", "k": "k0", "v": "1"}, {"do": "start", "op": "w2", "kind": "put", "at": "n1", "k": "k1", "v": "2"},
+              {"do": "start", "op": "j3", "kind": "join", "n": "n3", "via": "n1"}, {"do": "until", "op": "j3", "gate": "ns:loaded"},
+              {"do": "start", "op": "l2", "kind": "leave", "n": "n2"}, {"do": "until", "op": "l2", "gate": "leave:lock2"},
+              {"do": "step", "op": "j3"}, {"do": "steps", "op": "l2"}, {"do": "settle", "rounds": 8}, {"do": "steps", "op": "j3"},
+              {"do": "settle", "rounds": 16}]
+    r = 0
+    for k in ("k0", "k1"):
+        for n in ("n0", "n1", "n3"):
+            r += 1
+            steps.append({"do": "start", "op": "r%d" % r, "kind": "get", "at": n, "k": k})
+    steps.append({"do": "settle", "rounds": 2})
+    return {"name": "lock-word-race", "layout": lay, "variant": 1, "gates": GATES_MEMBERSHIP + ["ns:loaded"], "critparks": True, "steps": steps}
+
+
 # ----------------------------------------------------------------------------- events -> trace records
 def _gate(g):
     """'join:attempt@4' -> ('join:attempt', 4) ; 'done' -> ('done', None)"""
@@ -180,6 +204,7 @@ class Translator:
         self.op_entry_dead = {}
         self.pgate = {}
         self.read_done = {}
+        self.last_sur = getattr(self, "last_sur", {})
         self.acked = []       # acknowledged client operations of this scenario, in order
         self.lines.append({"act": "Reset", "sid": self.sid, "lay": {"npos": self.nrank, "kpos": self.krank}})
         self.meta.append((self.sid, -1, "begin " + ev.get("name", "")))
@@ -193,7 +218,12 @@ class Translator:
             out["st"][i] = ns["st"]
             out["pred"][i] = self.nidx.get(ns["pred"], 0)
             out["succ"][i] = [self.nidx.get(x, 0) for x in ns["succ"]]
-            out["sur"][i] = self.nidx.get(ns["sur"], 0)
+            if ns["sur"] == -3 and (self.sid, i) in self.last_sur:
+                # unreadable: an operation is parked holding that node's surrogateMu (only before its first write): the last value read stands
+                out["sur"][i] = self.last_sur[(self.sid, i)]
+            else:
+                out["sur"][i] = self.nidx.get(ns["sur"], 0)
+                self.last_sur[(self.sid, i)] = out["sur"][i]
             out["fs"][i] = [self.nidx.get(x, 0) for x in ns.get("fs") or []]
             for kr, v in ns.get("store", {}).items():
                 out["store"][i][self.kidx[int(kr)] - 1]["v"] = int(v)
@@ -246,6 +276,10 @@ class Translator:
             if kind == "leave" and frm == "leave:attempt" and not self.read_done.get(op):
                 self.read_done[op] = True
                 return self.add(ev, {"act": "LeaveRead", "n": self.opnode.get(op, 0)})
+            if kind == "join" and getattr(self, "prev_state", None) is not None:
+                # parked inside RequestToJoin, holding the handling node's surrogateMu: the snapshot cannot read that node's guarded
+                # fields; nothing has changed between the lock gate and the load of the lock word, the previous snapshot stands
+                ev = dict(ev, state=self.prev_state)
             return self.add(ev, {"act": "Stutter"})
         if kind == "leave" and frm == "leave:attempt" and self.read_done.get(op):
             # the pointers were read in an earlier segment: this one only takes the first lock (or is refused)
@@ -561,6 +595,7 @@ GOAL_INSTANCES = [
     dict(init="{1, 2, 3, 4}", joiners="{}", leavers="{3, 4}"),  # adjacent leaves including the wrap-around node
     dict(init="{1, 2, 3}", joiners="{4}", leavers="{3}"),       # the highest member leaves while a node with an even higher id joins behind it
     dict(init="{2}", joiners="{1}", leavers="{2}"),             # a one-node ring: its only member leaves while the first joiner is being admitted
+    dict(init="{1, 4}", joiners="{2, 3}", leavers="{}"),        # two joins into the same gap
 ]
 GOAL_AT = {"join-refused-busy": 0, "join-refused-pred-unsettled": 0, "join-granted-with-keys": 1, "leave1-succfirst-granted": 1,
            "leave1-succfirst-refused-busy": 3, "leave1-succfirst-refused-not-predecessor": 3, "leave1-selffirst-granted": 0,
@@ -568,7 +603,7 @@ GOAL_AT = {"join-refused-busy": 0, "join-refused-pred-unsettled": 0, "join-grant
            "leave2-selffirst-granted": 0, "leave2-selffirst-refused-succ-busy": 2, "leave2-selffirst-refused-not-predecessor": 0,
            "leave-transfer-with-keys": 0, "checkpred-cleared": 0, "leave-no-neighbour": 2,
            "leave1-succfirst-refused-not-predecessor-with-keys-stale-read": 4, "leave2-selffirst-refused-not-predecessor-with-keys-stale-read": 0,
-           "leave-own-successor-with-predecessor-with-keys": 5}     # measured: first instance that reaches the goal
+           "leave-own-successor-with-predecessor-with-keys": 5, "join-refused-wrong-successor-with-keys": 6}     # measured: first instance that reaches the goal
 GOALS = ["join-refused-busy", "join-refused-pred-unsettled", "join-refused-wrong-successor", "join-granted-with-keys",
          "leave1-succfirst-granted", "leave1-succfirst-refused-busy", "leave1-succfirst-refused-not-predecessor",
          "leave1-selffirst-granted", "leave1-selffirst-refused-busy",
@@ -576,7 +611,7 @@ GOALS = ["join-refused-busy", "join-refused-pred-unsettled", "join-refused-wrong
          "leave2-selffirst-granted", "leave2-selffirst-refused-succ-busy", "leave2-selffirst-refused-not-predecessor",
          "leave-transfer-with-keys", "checkpred-cleared", "leave-no-neighbour",
          "leave1-succfirst-refused-not-predecessor-with-keys-stale-read", "leave2-selffirst-refused-not-predecessor-with-keys-stale-read",
-         "leave-own-successor-with-predecessor-with-keys"]
+         "leave-own-successor-with-predecessor-with-keys", "join-refused-wrong-successor-with-keys"]
 
 
 def mc_cfg(fixpred, fixleave, fixwrap=False, lay="Lay4", init="{1, 2, 4}", joiners="{3}", leavers="{2}", maxops=2, invs=ALL_INVS,
